@@ -167,6 +167,10 @@ class Run:
             print(f"HARNESS-ERROR property={self.pid} evidence does not validate: {e}", flush=True)
             self.harness_errors.append("evidence schema")
         (EVIDENCE / f"{self.pid}.json").write_text(json.dumps(ev, indent=1, default=str))
+        if self.tier == "thorough" and not os.environ.get("VP_ONLY"):
+            # the last complete thorough run is kept beside the per-run file (which the next quick run overwrites)
+            (EVIDENCE / "thorough").mkdir(exist_ok=True)
+            (EVIDENCE / "thorough" / f"{self.pid}.json").write_text(json.dumps(ev, indent=1, default=str))
         if self.violations:
             return EXIT_VIOLATION
         if self.harness_errors:
